@@ -58,9 +58,8 @@ func proveLemma(P *Program, name, dir string, timeout int, cross bool) (solverAn
 	}
 	var sb strings.Builder
 	sb.WriteString("(set-option :produce-models true)\n(set-logic ALL)\n")
-	sb.WriteString(preludeCommon)
+	sb.WriteString(preludeFor(target.Strings))
 	if target.Strings {
-		sb.WriteString(preludeStrTheory)
 		sb.WriteString("(define-fun strcat ((a Str) (b Str)) Str (str.++ a b))\n")
 	} else {
 		sb.WriteString(preludeStrAbstract)
